@@ -6,6 +6,9 @@ use crate::dot::DotBuilder;
 use crate::regex::LazyRegex;
 #[cfg(feature = "dot")]
 use dot_graph::{Edge, Graph, Node as GraphNode};
+#[cfg(kani)]
+use crate::verif_shim::map::HashMap;
+#[cfg(not(kani))]
 use std::collections::HashMap;
 use std::sync::Arc;
 
